@@ -74,14 +74,25 @@ func bv64(v int64) string { return bv(64, uint64(v)) }
 // prelude: with GOVC_XADD=1 the index sum inside elem is an uninterpreted function with a
 // defining axiom instead of bvadd (experiment: z3 normalises bvadd sums, which defeats
 // syntactic trigger matching on (select H (elem s i))).
+var preludeXadd = strings.Replace(prelude0,
+	"(define-fun elem ((s Slice) (i (_ BitVec 64))) Loc (mkLoc (base (s_arr s)) (PE (path (s_arr s)) (bvadd (s_off s) i))))",
+	"(declare-fun xadd ((_ BitVec 64) (_ BitVec 64)) (_ BitVec 64))\n(assert (forall ((a (_ BitVec 64)) (b (_ BitVec 64))) (! (= (xadd a b) (bvadd a b)) :pattern ((xadd a b)))))\n(define-fun elem ((s Slice) (i (_ BitVec 64))) Loc (mkLoc (base (s_arr s)) (PE (path (s_arr s)) (xadd (s_off s) i))))", 1)
+
 var prelude = func() string {
 	if os.Getenv("GOVC_XADD") != "1" {
 		return prelude0
 	}
-	return strings.Replace(prelude0,
-		"(define-fun elem ((s Slice) (i (_ BitVec 64))) Loc (mkLoc (base (s_arr s)) (PE (path (s_arr s)) (bvadd (s_off s) i))))",
-		"(declare-fun xadd ((_ BitVec 64) (_ BitVec 64)) (_ BitVec 64))\n(assert (forall ((a (_ BitVec 64)) (b (_ BitVec 64))) (! (= (xadd a b) (bvadd a b)) :pattern ((xadd a b)))))\n(define-fun elem ((s Slice) (i (_ BitVec 64))) Loc (mkLoc (base (s_arr s)) (PE (path (s_arr s)) (xadd (s_off s) i))))", 1)
+	return preludeXadd
 }()
+
+// preludeFor: a function whose contract says `uses xadd` gets the uninterpreted index sum
+// (with its defining axiom) in all its obligations.
+func preludeFor(c *FnVC) string {
+	if c != nil && c.ct != nil && c.ct.Uses["xadd"] {
+		return preludeXadd
+	}
+	return prelude
+}
 
 // ---- type environment: struct datatypes etc.
 
